@@ -626,6 +626,14 @@ def run_unit(unit, scratch):
     for k, v in sorted(counts.items()):
         assumptions.append("verus unit %s: rewrite %s applied %d time(s)" % (unit.name, k, v))
     whole = open(path).read()
+    ext_names = sorted(set(re.findall(r"#\[verifier::external_body\]\s*(?:pub\s+)?(?:proof\s+)?fn\s+(\w+)", whole)))
+    spec_names = sorted(set(re.findall(r"assume_specification\[\s*([^\]]+?)\s*\]", whole)))
+    uninterp = sorted(set(re.findall(r"uninterp spec fn (\w+)", whole)))
+    assumptions.append("verus unit %s: every external_body function in the verified file (contract assumed, body not seen by Verus): %s" % (unit.name, ", ".join(ext_names)))
+    if spec_names:
+        assumptions.append("verus unit %s: assume_specification for: %s" % (unit.name, ", ".join(spec_names)))
+    if uninterp:
+        assumptions.append("verus unit %s: uninterpreted spec functions: %s" % (unit.name, ", ".join(uninterp)))
     assumptions.append("verus unit %s: mechanical scan of generated file: assume=%d admit=%d external_body=%d assume_specification=%d" % (unit.name, len(re.findall(r"\bassume\(", whole)), len(re.findall(r"\badmit\(", whole)), whole.count("external_body"), whole.count("assume_specification")))
     meta = {
         "unit": unit.name,
